@@ -18,56 +18,42 @@ func init() {
 
 func r19_1(c *Ctx, r *Report) {
 	const rule = "R19.1"
-	r.rule(rule, "Fixed-width timestamps. ToYmd is Sprintf(\"%04d-%02d-%02d\") over the receiver's (year, month, day) in that order; ToYmdHms is ToYmd followed by \" %02d:%02d:%02d\" over (hour, minute, second) in that order. With the field ranges at the only allocation site of Solar (C07) and AX-YEAR this gives fixed width, hence parse-back and lexicographic = chronological order.")
-	check := func(name string, wantVerbs []string, wantLits []string, wantArgs []string) {
-		fn := c.Fn(r, rule, name)
+	r.rule(rule, "Fixed-width timestamps. ToYmd renders the receiver's own (year, month, day) as %04d-%02d-%02d and ToYmdHms appends ' %02d:%02d:%02d' of its own (hour, minute, second): both functions are followed by the evaluator (formatting calls are the checker's own arithmetic, helpers inline) for component values with one, two, three and four digits, all distinct so that a transposition shows, and the result compared with that rendering. With the field ranges at the only allocation site of Solar (C07) and AX-YEAR this gives fixed width, hence parse-back and lexicographic = chronological order. Solar.String is ToYmd.")
+	cases := [][6]int64{{5, 1, 2, 3, 4, 6}, {2345, 12, 31, 23, 59, 58}, {45, 10, 9, 0, 7, 30}, {345, 2, 28, 11, 0, 0}}
+	for _, t := range []struct {
+		name string
+		hms  bool
+	}{{"calendar.(*Solar).ToYmd", false}, {"calendar.(*Solar).ToYmdHms", true}, {"calendar.(*Solar).String", false}} {
+		fn := c.Fn(r, rule, t.name)
 		if fn == nil {
-			return
+			continue
 		}
-		found, nret := true, 0
-		var detail string
-		for _, b := range fn.Blocks {
-			for _, ins := range b.Instrs {
-				ret, ok := ins.(*ssa.Return)
-				if !ok || len(ret.Results) != 1 {
-					continue
-				}
-				nret++
-				_, f, args, ok := sprintfCall(ret.Results[0])
-				if !ok {
-					detail = "a return value is not a single fmt.Sprintf with a constant format (undecided = fail)"
-					found = false
-					continue
-				}
-				verbs, lits := parseFormat(f)
-				var vs, as []string
-				for _, v := range verbs {
-					vs = append(vs, v.raw)
-				}
-				for _, a := range args {
-					if call, ok := a.(*ssa.Call); ok && call.Common().StaticCallee() != nil && fname(call.Common().StaticCallee()) == "calendar.(*Solar).ToYmd" && len(call.Common().Args) == 1 && call.Common().Args[0] == ssa.Value(fn.Params[0]) {
-						as = append(as, "p0.ToYmd()")
-						continue
+		var bad []string
+		for _, v := range cases {
+			ev := &evaluator{inline: inlineLibrary, leaf: func(fr *evalFrame, x ssa.Value) (interface{}, bool) {
+				if rc, f, ok := getterField(c, x); ok {
+					if ofr, o := fr.origin(rc); ofr.parent == nil && o == ssa.Value(fn.Params[0]) {
+						if i, known := solarComponent[f]; known {
+							return v[i], true
+						}
 					}
-					as = append(as, describeArg(c, fn, a))
 				}
-				if found {
-					detail = fmt.Sprintf("format %q over (%s)", f, strings.Join(as, ", "))
-				}
-				if !(equalStrs(vs, wantVerbs) && equalStrs(lits, wantLits) && equalStrs(as, wantArgs)) {
-					found = false
-					detail = fmt.Sprintf("format %q over (%s)", f, strings.Join(as, ", "))
-				}
+				return nil, false
+			}}
+			res, outcome := ev.run(fn, nil, nil, nil, nil)
+			want := fmt.Sprintf("%04d-%02d-%02d", v[0], v[1], v[2])
+			if t.hms {
+				want += fmt.Sprintf(" %02d:%02d:%02d", v[3], v[4], v[5])
+			}
+			if outcome != "return" || len(res) != 1 {
+				bad = append(bad, "not followed (undecided = fail): "+outcome+" "+ev.fail)
+				break
+			}
+			if res[0] != interface{}(want) {
+				bad = append(bad, fmt.Sprintf("%v renders as %q, expected %q", v, res[0], want))
 			}
 		}
-		r.check(found && nret > 0, rule, name+" is fixed-width and ordered", c.fnPos(fn), detail)
-	}
-	check("calendar.(*Solar).ToYmd", []string{"%04d", "%02d", "%02d"}, []string{"", "-", "-", ""}, []string{"p0.year", "p0.month", "p0.day"})
-	check("calendar.(*Solar).ToYmdHms", []string{"%v", "%02d", "%02d", "%02d"}, []string{"", " ", ":", ":", ""}, []string{"p0.ToYmd()", "p0.hour", "p0.minute", "p0.second"})
-	// Solar.String is ToYmd
-	if fn := c.Fn(r, rule, "calendar.(*Solar).String"); fn != nil {
-		d := pureDelegation(fn)
-		r.check(d != nil && fname(d.callee) == "calendar.(*Solar).ToYmd", rule, "calendar.(*Solar).String is ToYmd", c.fnPos(fn), "pure delegation")
+		r.check(len(bad) == 0, rule, t.name+" is fixed-width and ordered", c.fnPos(fn), fmt.Sprintf("%d component assignments evaluated; deviations: %v", len(cases), headList(bad, 2)))
 	}
 }
 
